@@ -5,8 +5,9 @@
  *   gemv     sp_?gemv   all m x n 0/1 patterns (m,n<=3) x 2 value tables x trans{N,T,C} x alpha,beta{0,1,-1,2.5(+0.5i)} x incx,incy{1,2,-1,-2}
  *                       (+ the documented NCP input type with every column permutation, unit strides)
  *   gemm     sp_?gemm   same matrices x trans x alpha,beta x 1..2 columns x tight/padded ldb, ldc
- *   trsv     sp_?trsv   every structurally nonsingular pattern n<=3 (full: n<=4), generic values, factored by p?gstrf with
- *                       panel_size{1,4} x relax{1,2} x maxsuper{1,2,n}; (uplo,trans,diag) in (L,*,U),(U,*,N), trans{N,T,C}; 2 right-hand sides
+ *   trsv     sp_?trsv   every structurally nonsingular pattern n<=4, generic values, factored by p?gstrf with
+ *                       panel_size{1,4} x relax{1,2} x maxsuper{1,2,n} (quick: 3 of these 12 at n=4); (uplo,trans,diag) in (L,*,U),(U,*,N),
+ *                       trans{N,T,C}; 2 right-hand sides
  *   langs    ?langs     same matrices x norm{M,1,O,I,F,E and lower case}
  *   convert  ?CompRow_to_CompCol, ?Copy_CompCol_Matrix, ?Create_CompCol/CompRow/Dense_Matrix, ?Create_CompCol_Permuted (all column
  *                       permutations), sp_colorder (square patterns, all initial perm_c)
@@ -537,11 +538,18 @@ static void unit_cases(int m, int n, unsigned bits, int vt) {
         int pat[NMAX][NMAX], cols[NMAX]; memset(pat, 0, sizeof pat);
         for (int i = 0; i < n; i++) { cols[i] = i; for (int j = 0; j < n; j++) pat[i][j] = (bits >> (i * n + j)) & 1; }
         if (struct_rank_prefix(n, pat, cols, n) < n) { if (!G->resume_cfg) G->units_outside_hyp++; return; }
-        static const int WS[2] = { 1, 4 }, RS[2] = { 1, 2 };
-        int msv[3] = { 1, 2, n }, nms = n >= 3 ? 3 : (n == 2 ? 2 : 1); if (n == 2) msv[1] = 2;
-        for (int wi = 0; wi < 2; wi++) for (int ri = 0; ri < 2; ri++) for (int mi = 0; mi < nms; mi++) {
+        /* factor options (panel_size, relax, maxsuper).  n <= 3 and the full grid: {1,4} x {1,2} x {1,2,n}; quick grid at n = 4: three
+           combinations that give singleton, relaxed and two-column T2 supernodes */
+        int cfg[12][3], ncfg = 0;
+        if (n >= 4 && !SW.full) { static const int q[3][3] = { { 1, 2, 1 }, { 4, 1, 2 }, { 1, 1, 99 } }; for (int k = 0; k < 3; k++) { cfg[ncfg][0] = q[k][0]; cfg[ncfg][1] = q[k][1]; cfg[ncfg][2] = q[k][2] == 99 ? n : q[k][2]; ncfg++; } }
+        else {
+            static const int WS[2] = { 1, 4 }, RS[2] = { 1, 2 };
+            int msv[3] = { 1, 2, n }, nms = n >= 3 ? 3 : n;
+            for (int wi = 0; wi < 2; wi++) for (int ri = 0; ri < 2; ri++) for (int mi = 0; mi < nms; mi++) { cfg[ncfg][0] = WS[wi]; cfg[ncfg][1] = RS[ri]; cfg[ncfg][2] = msv[mi]; ncfg++; }
+        }
+        for (int k = 0; k < ncfg; k++) {
             static kfact_t f; f.tried = 0;
-            c.w = WS[wi]; c.rlx = RS[ri]; c.ms = msv[mi];
+            c.w = cfg[k][0]; c.rlx = cfg[k][1]; c.ms = cfg[k][2];
             for (c.uplo = 0; c.uplo < 2; c.uplo++) for (c.trans = 0; c.trans < 3; c.trans++) for (c.rhs = 0; c.rhs < 2; c.rhs++) if (case_gate(&c)) {
                 if (!f.tried) kf_factor(&f, &T, c.w, c.rlx, c.ms);
                 if (!f.ok) { G->skipped++; G->skip_no_factors++; G->runs--; }     /* no well-formed factors with info = 0: C02/C09's subject, nothing to solve with */
@@ -675,8 +683,8 @@ int main(int argc, char **argv) {
     SW.full = !strcmp(grid, "full");
     /* grids: quick and full enumerate the same input space for gemv/gemm/langs/convert; quick caps the number of process deaths it
        pays for per input class (every further case of a class that keeps killing the process is counted as skipped), full does not.
-       trsv: n <= 3 with one set of values (quick), n <= 4 with two (full). */
-    SW.mmax = arg_int(argc, argv, "--mmax", 3); SW.nmax = arg_int(argc, argv, "--nmax", SW.fam == F_TRSV ? (SW.full ? 4 : 3) : 3);
+       trsv: n <= 4; quick uses one set of values and 3 of the 12 factor-option combinations at n = 4, full two sets and all 12. */
+    SW.mmax = arg_int(argc, argv, "--mmax", 3); SW.nmax = arg_int(argc, argv, "--nmax", SW.fam == F_TRSV ? 4 : 3);
     if (SW.mmax > 5 || SW.nmax > 5 || SW.mmax * SW.nmax > 20) { fprintf(stderr, "bounds too large\n"); return 2; }
     SW.nvt = SW.fam == F_TRSV ? (SW.full ? 2 : 1) : 2;
     SW.ncp = arg_int(argc, argv, "--ncp", 1);
